@@ -19,6 +19,10 @@ import numba  # noqa: E402
 # real-numba world raise it explicitly (worlds.real_numba) up to NUMBA_NUM_THREADS.
 numba.set_num_threads(2)
 
+from dsim import parfor as _parfor  # noqa: E402
+
+_parfor.poison_library_namespaces()
+
 from dsim import worker  # noqa: E402
 
 if __name__ == "__main__":
